@@ -3,14 +3,14 @@
 // Contracts for the deductive verifier in /verif (comment-only; compiled only with -tags verif).
 package v1
 
-//@ func Params.Validate
+//@ func Params.Validate()
 //@   property C16
 //@   returns err
 //@   ensures valid: err == nil ==> paramsOK(p)
 //@ end
 
 // Genesis validation reads no state; InitGenesis relies on nothing it establishes (assumed: it has no effect).
-//@ func ValidateGenesis
+//@ func ValidateGenesis(data)
 //@   property C12
 //@   trusted
 //@   returns err
@@ -18,7 +18,7 @@ package v1
 
 // Token validation (issue message, genesis): the declared cap covers the initial supply and the scale is within range
 // (what IssueToken assumes of a validated message, C09)
-//@ func Token.Validate
+//@ func Token.Validate()
 //@   property C09
 //@   returns err
 //@   ensures cap_covers_initial: err == nil ==> t.InitialSupply <= t.MaxSupply && t.Scale <= 18
